@@ -30,7 +30,7 @@ def stream_line(S, stream):
 
 
 def check(rep):
-    coq = fw.coq_check("C13", [])
+    coq = fw.coq_check("C13", ["SrcSysGen"])
     quick = rep.tier == "quick"
     rnd = random.Random(rep.seed + 13)
     n_sys = 45 if quick else 2500
